@@ -459,7 +459,15 @@ class CallGraphFam(DictFam):
     name, cls = "call_graph", "CallGraphLoader"
 
     def gen(self, rng, tok, size):
-        return {"edges": [[tok + 1 + i, tok + 2 + i, tok + 100 + i] for i in range(max(1, size))]}
+        edges = [[tok + 1 + i, tok + 2 + i, tok + 100 + i] for i in range(max(1, size))]
+        r = rng.random()
+        if r < 0.3:
+            # what a real analysis produces for calls it cannot resolve: negative callee ids, and edges without a call statement
+            edges.append([tok + 1, -1 - rng.randrange(3), tok + 200])
+            edges.append([tok + 3, -2, None])
+        elif r < 0.45:
+            edges.append([tok + 1, tok + 2, tok + 300])        # a second call statement between the same two methods
+        return {"edges": edges}
 
     def apply(self, loader, model, desc):
         g = _CS.CallGraph()
